@@ -543,7 +543,9 @@ def judge_fence(owner, method, o):
         if in_cache:
             problems.append({'what': 'fenced call is in the cache record', 'where': in_cache, 'kind': 'straggler_runs_after_close'})
     elif res[0] == 'ok':
-        if not complex_ and o.get('late_obs'):
+        # (also for build_file / subbuild: a call whose function was still touching the file system after the owner's
+        # call had returned cannot have been appended before the close - it must end with RuntimeError)
+        if o.get('late_obs'):
             problems.append({'what': 'an operation that looked at the file system after the record was closed completed normally '
                                      '(its observation is attached to a closed record)', 'late_calls': o['late_obs'][:5],
                              'kind': 'observation_after_close'})
